@@ -895,6 +895,22 @@ func staticCond(v ssa.Value) (bool, bool) {
 			return false, true
 		}
 	}
+	// a declared function (or a closure made here) is never nil
+	isFn := func(v ssa.Value) bool {
+		switch stripConv(v).(type) {
+		case *ssa.Function, *ssa.MakeClosure:
+			return true
+		}
+		return false
+	}
+	if (isFn(bo.X) && isNilConst(bo.Y)) || (isFn(bo.Y) && isNilConst(bo.X)) {
+		switch bo.Op {
+		case token.EQL:
+			return false, true
+		case token.NEQ:
+			return true, true
+		}
+	}
 	x, okx := constInt(bo.X)
 	y, oky := constInt(bo.Y)
 	if okx && oky {
